@@ -366,3 +366,19 @@ func init() {
 		r.add("DBGRX", "debug", "x", "x", nil, nil, "")
 	})
 }
+
+func init() {
+	register("DBGMF", "dump mutated fields", func(c *Ctx, r *Report) {
+		seen := map[string]bool{}
+		for f := range c.W.mutatedFields() {
+			if f.Pkg() == nil || !isAnalysedPkg(f.Pkg().Path()) {
+				continue
+			}
+			seen[short(f.Pkg().Path())+" "+f.Name()+" "+short(f.Type().String())] = true
+		}
+		for k := range seen {
+			fmt.Println("MF", k)
+		}
+		r.add("DBGMF", "debug", "x", "x", nil, nil, "")
+	})
+}
